@@ -6975,7 +6975,7 @@ int32_t psOcspParseResponse(psPool_t *pool, int32_t len, unsigned char **cp,
     {
         /* Something other than success.  List right above here */
         psTraceCrypto("OCSPResponse contains no valid confirmations\n");
-        if (status <= 6 && status != 4)
+        if (status >= 1 && status <= 6 && status != 4)
         {
             /* Map status codes to return codes. */
             return status + (PS_OCSP_MALFORMED_REQUEST - 1);
